@@ -450,8 +450,8 @@ func init() {
 	register(&Property{ID: "C15", Streams: []*Stream{
 		{
 			Name: "roundtrip", Quick: 20000, Thorough: 200000,
-			New: func() Case { return &trefCase{} },
-			Gen: func(r *Rng, i int) Case { return trefCase{genRef(r, 1+r.Intn(5), 1+r.Intn(3), false)} },
+			New:  func() Case { return &trefCase{} },
+			Gen:  func(r *Rng, i int) Case { return trefCase{genRef(r, 1+r.Intn(5), 1+r.Intn(3), false)} },
 			Rule: "random well-formed references (depth ≤ 5, width ≤ 3, dotted hosts, vN paths) printed and parsed back; non-trivial = has type arguments",
 		},
 		{
@@ -474,7 +474,7 @@ func init() {
 		},
 		{
 			Name: "split", Quick: 10000, Thorough: 100000,
-			New:  func() Case { return &tsplitCase{} },
+			New: func() Case { return &tsplitCase{} },
 			Gen: func(r *Rng, i int) Case {
 				t := genRef(r, 1+r.Intn(3), 2, false)
 				if r.Chance(20) {
@@ -486,7 +486,7 @@ func init() {
 		},
 		{
 			Name: "names", Quick: 10000, Thorough: 100000,
-			New:  func() Case { return &tnameCase{} },
+			New: func() Case { return &tnameCase{} },
 			Gen: func(r *Rng, i int) Case {
 				k := 1 + r.Intn(4)
 				c := tnameCase{Self: "example.com/self"}
